@@ -125,12 +125,12 @@ type plan struct {
 	alpha  []form
 }
 
-// mixedDamage: first object bit-flipped, second deleted (crossed with every form assignment in the "pointers" slices).
+// mixedDamage: first object bit-flipped, last-but-one deleted (crossed with every form assignment in the "pointers" slices).
 func mixedDamage(n int) []int {
 	a := make([]int, n)
 	a[0] = dBitflip
-	if n > 1 {
-		a[1] = dDeleted
+	if n > 2 {
+		a[n-2] = dDeleted
 	}
 	return a
 }
@@ -181,7 +181,7 @@ func makePlan(shs []shape, thorough bool) plan {
 		p.slices = append(p.slices, sliceDef{"flags/" + sh.name, si, sh.objForms[1:], [][]int{mixedDamage(n)}, []flagSet{flDryPtr, flBoth, flShort}})
 		if sh.name == "dup" || sh.name == "staged" {
 			// the remaining (assignment over {canon,crlf,raw}) x (single damage) cells: with objects1 and pointers the product is complete there
-			p.slices = append(p.slices, sliceDef{"cross/" + sh.name, si, without(formAssignments([]form{fCanon, fCRLF, fRaw}, sh.nslots), sh.objForms...), damageVectors(n, 1, 1), []flagSet{flNone}})
+			p.slices = append(p.slices, sliceDef{"cross/" + sh.name, si, without(formAssignments([]form{fCanon, fCRLF, fRaw}, sh.nslots), sh.objForms...), damageVectors(n, 1, 1), []flagSet{flNone, flDry}})
 		}
 	}
 	return p
@@ -536,6 +536,10 @@ func (ev *env) run(x *vx.X) vx.Result {
 			}
 			continue
 		}
+		if exp.rawIndexOnly[p] {
+			cnt("P.may-named/raw-index-only")
+			continue
+		}
 		if exp.rawMay[p] || exp.rawMust[p] {
 			// right path, but attributed to a commit that is not inspected or where it is fine
 			viol("C13:pointer-falsely-reported:raw:wrong-commit", fmt.Sprintf("fsck reports %q for treeish %s where it is not a tracked non-pointer of an inspected commit", p, pair[:40]))
@@ -617,9 +621,33 @@ func (ev *env) run(x *vx.X) vx.Result {
 			cnt("lfs-tmp-file-left-behind-under-dry-run")
 		}
 	}
+	// a NEW, VALID object (aa/bb/<oid> whose bytes hash to <oid>) appearing in lfs/objects: the clean filter that
+	// fsck's `git diff-index -M HEAD` starts stored a work-tree file (finding-3.md).  The statement does not forbid
+	// it without --dry-run (tolerated, counted); under --dry-run it is a change of lfs/objects.
+	var objAdded []string
+	{
+		var rest []string
+		for _, ch := range changed {
+			rel := strings.TrimPrefix(ch, "added ")
+			if rel != ch && strings.HasPrefix(rel, ".git/lfs/objects/") {
+				n := filepath.Base(rel)
+				if len(n) == 64 && rel == filepath.Join(".git/lfs/objects", n[0:2], n[2:4], n) && after[rel].Sha == n {
+					objAdded = append(objAdded, ch)
+					continue
+				}
+			}
+			rest = append(rest, ch)
+		}
+		changed = rest
+	}
+	if len(objAdded) > 0 {
+		cnt("valid-object-created-during-fsck")
+	}
 	if fl.dry {
 		if len(changed) > 0 {
-			viol("C13:dry-run-changed:"+pathClass(strings.SplitN(changed[0], " ", 2)[1]), "--dry-run changed the repository: "+strings.Join(changed, "; "))
+			viol("C13:dry-run-changed:"+pathClass(strings.SplitN(changed[0], " ", 2)[1]), "--dry-run changed the repository: "+strings.Join(append(changed, objAdded...), "; "))
+		} else if len(objAdded) > 0 {
+			viol("C13:dry-run-changed:valid-object-created-by-clean-filter", "--dry-run added a (valid) object to lfs/objects, nothing else changed: "+strings.Join(objAdded, "; "))
 		} else {
 			cnt("D.dry-run-left-every-file-identical")
 			if nReported > 0 {
@@ -760,7 +788,7 @@ func TestVerifC13(t *testing.T) {
 		"the explored set is a union of disjoint COMPLETE products (slices, listed with their sizes under bounds.slices), every slice crossed with every revision argument and fetchexclude value of its shape: " +
 		"quick: objects/* = all-canonical history x every damage vector with <=1 damaged object (5 damage kinds) x {no flag, --dry-run}; pointers/* = every other assignment over {canon,crlf,raw} x the mixed damage vector x {no flag, --pointers, --objects}. " +
 		"thorough: objects1/* = {all canonical, one mixed assignment} x <=1 damaged x 5 flag sets; objects2/* = all canonical x exactly 2 damaged (all kind pairs) x {no flag, --dry-run}; pointers/* = every other assignment over {canon,crlf,raw,nonl} x {intact, mixed damage} x 4 flag sets; " +
-		"flags/* = 3 further flag spellings; cross/{dup,staged} = the remaining (assignment x single damage) cells so that forms x single damages is a full product there.  " +
+		"flags/* = 3 further flag spellings; cross/{dup,staged} = the remaining (assignment over {canon,crlf,raw} x single damage) cells x {no flag, --dry-run} so that forms x single damages is a full product there.  " +
 		"distinct_nontrivial = distinct cases in which at least one object is damaged or one path is not a canonical pointer (all-intact all-canonical cases only count as executions)"
 	c.Assumptions = []string{
 		"scope per docs/man/git-lfs-fsck.adoc: no argument = HEAD plus (objects only) the index; one committish = that commit only; A..B = the commits in the range",
@@ -770,7 +798,7 @@ func TestVerifC13(t *testing.T) {
 		"a pointer-shaped blob at a path that is not LFS-tracked references an object 'maybe': naming its damaged object is accepted, not demanded; such a file is never a pointer problem",
 		"the label (openError vs corruptObject) is not part of the property except that a deleted object must not be called corrupt; duplicate lines are tolerated; the NAME shown next to an oid is not checked",
 		"'--dry-run changes nothing' is read as: lfs/objects, lfs/bad, the Git object database, refs, index, config, hooks and the working tree are unchanged (every regular file and symlink of the repository directory: content and mode; inode and mtime too below .git/lfs); NEW files below .git/lfs/tmp (git-lfs' transient area) are tolerated and counted (counter lfs-tmp-file-left-behind*, see props/C13/finding-2.md); creation of empty directories and directory mtimes are ignored",
-		"without --dry-run the same comparison applies, except that reported corrupt objects must have moved to lfs/bad/<oid> with their bytes",
+		"without --dry-run the same comparison applies, except that reported corrupt objects must have moved to lfs/bad/<oid> with their bytes, and that a NEW valid object appearing in lfs/objects (stored by the clean filter which fsck's `git diff-index -M HEAD` starts on a stat-dirty work-tree file) is tolerated and counted: the statement forbids touching intact objects and moving anything but corrupt ones, not adding valid ones; under --dry-run it is reported (props/C13/finding-3.md)",
 		"work tree holds pointer text (as after GIT_LFS_SKIP_SMUDGE=1 checkout) and is stat-clean; hooks and local filter config are installed beforehand; linear histories only",
 		"git 2.39.5; subprocess timeout 60 s is a tool guard (=> inconclusive)",
 	}
